@@ -608,6 +608,8 @@ pub enum Expr {
 pub enum FStringPart {
     Literal(String),
     Expr(Spanned<Expr>),
+    /// `{expr:?}`: interpolate the debug representation of the value.
+    DebugExpr(Spanned<Expr>),
 }
 
 #[derive(Debug, Clone, PartialEq)]
